@@ -11,11 +11,11 @@ CHECKS = {
   note="Trusted: go/ssa lowering, interpreter (translator-validated), z3; ideal signature scheme under the real sim backend code; the invariant as stated in the evidence.",
   ref="DESIGN.md §3 C01"),
  "C02": dict(
-  text="Solver-decided, bounded: for every well-formed current state and every candidate within 13 shape variants (all leaves symbolic, amounts unbounded integers) the real StateMachine.Update accepts only candidates satisfying an independent reference predicate written from the property text, never panics, and leaves phase/staging/current untouched and refuses to sign when it refuses; same for Init and CheckUpdate; Allocation.Valid is exact at the 1024/1025 limits.",
+  text="Solver-decided, bounded: for every well-formed current state and every candidate within 13 shape variants (all leaves symbolic, amounts unbounded integers) the real StateMachine.Update accepts only candidates satisfying an independent reference predicate written from the property text, never panics, and leaves phase/staging/current untouched and refuses to sign when it refuses; same for Init and CheckUpdate (with the peer's valid signature); no verdict carries over from CheckUpdate to a following Update of the edited candidate or another actor; Allocation.Valid is exact at the 1024/1025 limits.",
   note="Trusted: go/ssa lowering, interpreter (translator-validated per run), z3 (linear integer arithmetic for the sums); the reference predicate of DESIGN.md Appendix A.1.",
   ref="DESIGN.md §3 C02, Appendix A.1"),
  "C05": dict(
-  text="Engine/solver-decided, bounded: the real watcher (all its goroutines, pub-subs and registry, run by the engine's scheduler on a virtual clock) against a scripted RegisterSubscriber, for all histories of up to h steps with symbolic versions: a registered event below the newest published version (and not below what the watcher registered itself) triggers exactly one Register call with the newest parent transaction and, for a locked sub-channel, its newest or archived transaction; nothing newer known -> no call; registered events reach the client strictly increasing; progressed/concluded events are always relayed; a refused StopWatching leaves the channel watched and can be repeated. The refused-stop defect (F15) found this way was repaired.",
+  text="Engine/solver-decided, bounded: the real watcher (all its goroutines, pub-subs and registry, run by the engine's scheduler on a virtual clock) against a scripted RegisterSubscriber, for all histories of up to h steps with symbolic versions: a registered event below the newest published version (and not below what the watcher registered itself) triggers exactly one Register call with the newest parent transaction and, for a locked sub-channel, its newest or archived transaction; nothing newer known -> no call; registered events reach the client strictly increasing; progressed/concluded events are always relayed; a refused StopWatching leaves the channel watched and can be repeated; a failed registration registers nothing (the next stale event is refuted again); registered events for both channels of a family handled concurrently (the Register stub is a schedule point) have the outcome of one of the two sequential orders. The refused-stop defect (F15) found this way was repaired.",
   note="Trusted: go/ssa lowering, interpreter with cooperative scheduler, virtual clock and context model (translator-validated natively), z3; bounded histories and schedules.",
   ref="DESIGN.md §3 C05, Appendix A.5"),
  "C06": dict(
@@ -43,11 +43,11 @@ CHECKS = {
   note="Trusted: go/ssa lowering, interpreter (translator-validated), z3; ideal signatures; write-event crash granularity; LevelDB outside.",
   ref="DESIGN.md §3 C10"),
  "C11": dict(
-  text="Solver-decided, bounded: for all histories of up to h create/advance/remove steps over three channels with overlapping peer lists and a parent/child pair, after every step each restorer view (RestoreAll, RestorePeer, ActivePeers, RestoreChannel) and the raw key set agree with the reference set of live channels, and restored channels equal their own live machines leaf by leaf. The parent-key residue defect (F9) found this way was repaired.",
+  text="Solver-decided, bounded: for all histories of up to h create/advance/remove steps over three channels with overlapping peer lists and a parent/child pair, after every step each restorer view (RestoreAll, RestorePeer, ActivePeers, RestoreChannel) and the raw key set agree with the reference set of live channels, and restored channels equal their own live machines leaf by leaf; one channel id contains the store's key separator ':'; channels are registered with the store before or after their first state changes (both orders exist in the client); channels of 3, 10 and 11 participants leave nothing behind when removed. The parent-key residue defect (F9) found this way was repaired.",
   note="Trusted: go/ssa lowering, interpreter (translator-validated), z3; bounded histories; LevelDB outside.",
   ref="DESIGN.md §3 C11"),
  "C13": dict(
-  text="Solver-decided, bounded: every native decoder entry point, run on a fully symbolic buffer of every length up to L and on valid encodings with an arbitrary 4-byte window (plus truncation), never panics, never allocates more than 65536 elements from an unread length field, and on success the declared counts are within the documented limits (lengths read from the wire are symbolic: make(n) forks into exact small lengths and a symbolic-length class); the protobuf serializer's Decode is run on generated structs with one arbitrary deviation each. Known findings F2b (unbounded 32-bit lengths in address maps/arrays and AuthResponse) and F3pb (unknown backend key in protobuf) are reported as KNOWN-FINDING; six genuine defects found this way were repaired by fix: commits.",
+  text="Solver-decided, bounded: every native decoder entry point, run on a fully symbolic buffer of every length up to L and on valid encodings with an arbitrary 4-byte window (plus truncation), never panics, never allocates more than 65536 elements from an unread length field, and on success the declared counts are within the documented limits (lengths read from the wire are symbolic: make(n) forks into exact small lengths and a symbolic-length class); the protobuf serializer's Decode is run on generated structs with one arbitrary deviation each; longer inputs are covered by mostly-zero buffers (3 arbitrary bytes anywhere in up to 14 [24] zero bytes), sparse signatures with their full payload and big integers with declared lengths up to 255. Known findings F2b (unbounded 32-bit lengths in address maps/arrays and AuthResponse) and F3pb (unknown backend key in protobuf) are reported as KNOWN-FINDING; six genuine defects found this way were repaired by fix: commits.",
   note="Trusted: go/ssa lowering, interpreter (translator-validated incl. native allocation proxy), z3; proto.Marshal/Unmarshal modelled by contract.",
   ref="DESIGN.md §3 C13"),
  "C14": dict(
@@ -59,11 +59,11 @@ CHECKS = {
   note="Trusted: go/ssa lowering, the interpreter (validated per run against native execution on random vectors), z3; idealised SHA-256/ECDSA; representation assumptions listed in the evidence.",
   ref="DESIGN.md §3 C15"),
  "C16": dict(
-  text="Solver-decided, bounded: each primitive read site of the native codec returns the same value for every partition of its bytes into read chunks (all 2^(n-1) partitions, symbolic content) and never reads past its frame; two consecutive envelopes decode identically through the perunio and the protobuf envelope serializers under a bounded family of chunkings (uniform 1..8, every single cut, every double cut, all partitions of the first protobuf frame). The protobuf single-Read defect (F7) found this way was repaired.",
+  text="Solver-decided, bounded: each primitive read site of the native codec returns the same value for every partition of its bytes into read chunks (all 2^(n-1) partitions, symbolic content) and never reads past its frame; two consecutive envelopes decode identically through the perunio and the protobuf envelope serializers under a bounded family of chunkings (uniform 1..8, every single cut, every double cut, all partitions of the first protobuf frame); fields of 101..255 bytes are read through uniform chunks of 1..3 bytes (hundreds of reads). The protobuf single-Read defect (F7) found this way was repaired.",
   note="Trusted: go/ssa lowering, interpreter (translator-validated for the native parts), z3; proto.Marshal/Unmarshal modelled by contract.",
   ref="DESIGN.md §3 C16"),
  "C17": dict(
-  text="Solver-decided, bounded: with an ideal (collision-free) SHA-256 the real NewParams/CalcID give equal IDs for two parameter sets exactly when all ID-relevant fields are equal, for every single-field variant and for independent pairs within the shape bounds; Clone and Encode/Decode preserve ID and fields; NewParams refuses exactly the documented invalid parameters at the exact boundaries; machine-created states carry params.ID().",
+  text="Solver-decided, bounded: with an ideal (collision-free) SHA-256 the real NewParams/CalcID give equal IDs for two parameter sets exactly when all ID-relevant fields are equal, for every single-field variant and for independent pairs within the shape bounds; Clone and Encode/Decode preserve ID and fields; NewParams refuses exactly the documented invalid parameters at the exact boundaries and Params.Decode refuses well-formed encodings of the same invalid parameters; machine-created states carry params.ID().",
   note="Trusted: go/ssa lowering, the interpreter (translator-validated per run), z3; hash idealisation (equal digest iff equal byte stream fed to the hasher by the real CalcID).",
   ref="DESIGN.md §3 C17"),
  "C18": dict(
@@ -71,7 +71,7 @@ CHECKS = {
   note="Trusted: go/ssa lowering, interpreter with cooperative scheduler and vector-clock race detector (assertion outcomes translator-validated natively), z3; bounded threads, preemption bound 0.",
   ref="DESIGN.md §3 C18, Appendix A.6"),
  "C19": dict(
-  text="Solver-decided, bounded: for every cloneable type and shape within the bounds the clone equals the original (repository Equal and an independent leaf comparison), and after an arbitrary mutation (chosen by Choice over every mutable location, with symbolic deltas) applied to either side the other side is leaf-for-leaf what it was; covers State, Allocation, Balances, Params, Transaction, CloneSigs, StateMachine, ActionMachine, CloneSource, FromSource.",
+  text="Solver-decided, bounded: for every cloneable type and shape within the bounds the clone equals the original (repository Equal and an independent leaf comparison), and after an arbitrary mutation (chosen by Choice over every mutable location, with symbolic deltas) applied to either side the other side is leaf-for-leaf what it was; covers State, Allocation, Balances, Params, Transaction, CloneSigs, StateMachine, ActionMachine, CloneSource, FromSource, slices with spare capacity (append on both sides) and the machine's transaction history (through an overlay-only accessor).",
   note="Trusted: go/ssa lowering, interpreter (its pointer/aliasing semantics are translator-validated natively on the same harness), z3.",
   ref="DESIGN.md §3 C19"),
  "C20": dict(
